@@ -4,8 +4,8 @@ package c18
 
 import (
 	"bytes"
+	"errors"
 	"fmt"
-	"math"
 	"runtime"
 	"testing"
 
@@ -50,7 +50,21 @@ type Step struct {
 	N    int          `json:"n,omitempty"`    // gc: how many collections
 	Env  string       `json:"env,omitempty"`  // decode-keep: "" plain Decode, strict/legacy DecodeEnveloped
 	Skip uint64       `json:"skip,omitempty"` // stream-skip: which fields of the root struct are skipped
+	// Big: the value is withBig(W, Big), a struct that also holds a binary longer than 1 MiB
+	Big *Big `json:"big,omitempty"`
+	// decode-bad: the input is spoiled (Decode accepts it, forcing fails); Mode says what is done with it:
+	// "evaluate" (wire.EvaluateValue), "iterate" (ForEach then Close of everything, like generated readers),
+	// "keep" (kept open: every later iteration of it must fail again and disturb nothing)
+	Bad  *Poison `json:"bad,omitempty"`
+	Mode string  `json:"mode,omitempty"`
+	// partial: the consumer's callback gives up (returns an error) after Stop elements; with Close the
+	// persistent containers are closed afterwards (the value is finished), otherwise it stays open
+	Stop  int  `json:"stop,omitempty"`
+	Close bool `json:"close,omitempty"`
 }
+
+// value is the value the step works on.
+func (s Step) value() wm.W { return withBig(*s.W, s.Big) }
 
 // PoolCase is one script.
 type PoolCase struct {
@@ -61,10 +75,27 @@ type kept struct {
 	v     wire.Value
 	model wm.W
 	open  bool
+	bad   bool // decoded from a spoiled input: iterating it to the end must fail
+}
+
+// held is a result an earlier step obtained (binaries not copied): it belongs to
+// the caller and must not change whatever runs afterwards.
+type held struct {
+	step  int
+	got   wm.W
+	model wm.W
 }
 
 type machine struct {
 	kept []*kept
+	held []held
+}
+
+// hold remembers the result of a step: every big one, and the first few others.
+func (m *machine) hold(no int, big bool, got, model wm.W) {
+	if big || len(m.held) < 8 {
+		m.held = append(m.held, held{no, got, model})
+	}
 }
 
 func (m *machine) openIdx() []int {
@@ -77,105 +108,19 @@ func (m *machine) openIdx() []int {
 	return is
 }
 
-// walk forces v into a W. Persistent containers are closed iff closeP,
-// ephemeral ones iff closeE.
-func walk(v wire.Value, persistent, closeP, closeE bool) (wm.W, error) {
-	doClose := func() bool {
-		if persistent {
-			return closeP
-		}
-		return closeE
-	}
-	switch v.Type() {
-	case wire.TBool:
-		return wm.Bool(v.GetBool()), nil
-	case wire.TI8:
-		return wm.I8(v.GetI8()), nil
-	case wire.TI16:
-		return wm.I16(v.GetI16()), nil
-	case wire.TI32:
-		return wm.I32(v.GetI32()), nil
-	case wire.TI64:
-		return wm.I64(v.GetI64()), nil
-	case wire.TDouble:
-		return wm.DoubleBits(math.Float64bits(v.GetDouble())), nil
-	case wire.TBinary:
-		return wm.Binary(append([]byte{}, v.GetBinary()...)), nil
-	case wire.TStruct:
-		w := wm.W{K: wm.KStruct}
-		for _, f := range v.GetStruct().Fields {
-			c, err := walk(f.Value, persistent, closeP, closeE)
-			if err != nil {
-				return wm.W{}, err
-			}
-			w.Fields = append(w.Fields, wm.Field{ID: f.ID, V: c})
-		}
-		return w, nil
-	case wire.TList, wire.TSet:
-		var l wire.ValueList
-		k := wm.KList
-		if v.Type() == wire.TSet {
-			l, k = v.GetSet(), wm.KSet
-		} else {
-			l = v.GetList()
-		}
-		w := wm.W{K: k, EK: wm.Kind(l.ValueType())}
-		n := l.Size()
-		err := l.ForEach(func(e wire.Value) error {
-			c, err := walk(e, false, closeP, closeE)
-			if err != nil {
-				return err
-			}
-			w.Elems = append(w.Elems, c)
-			return nil
-		})
-		if doClose() {
-			l.Close()
-		}
-		if err != nil {
-			return wm.W{}, err
-		}
-		if n != len(w.Elems) {
-			return wm.W{}, fmt.Errorf("list Size()=%d but ForEach yielded %d", n, len(w.Elems))
-		}
-		return w, nil
-	case wire.TMap:
-		mp := v.GetMap()
-		w := wm.W{K: wm.KMap, KK: wm.Kind(mp.KeyType()), VK: wm.Kind(mp.ValueType())}
-		n := mp.Size()
-		err := mp.ForEach(func(it wire.MapItem) error {
-			kk, err := walk(it.Key, false, closeP, closeE)
-			if err != nil {
-				return err
-			}
-			vv, err := walk(it.Value, false, closeP, closeE)
-			if err != nil {
-				return err
-			}
-			w.Pairs = append(w.Pairs, wm.Pair{K: kk, V: vv})
-			return nil
-		})
-		if doClose() {
-			mp.Close()
-		}
-		if err != nil {
-			return wm.W{}, err
-		}
-		if n != len(w.Pairs) {
-			return wm.W{}, fmt.Errorf("map Size()=%d but ForEach yielded %d", n, len(w.Pairs))
-		}
-		return w, nil
-	}
-	return wm.W{}, fmt.Errorf("unknown wire type %d", v.Type())
-}
-
 // invariant: every still-open kept value forces to its model.
 func (m *machine) invariant(after string, stepNo int) error {
 	for i, k := range m.kept {
 		if !k.open {
 			continue
 		}
-		got, err := walk(k.v, true, false, true)
+		got, err := (&walker{closeE: true, budget: -1}).walk(k.v, true)
+		if k.bad {
+			if err == nil {
+				return ev.Errf("pool/invariant/error-missed", "after step %d (%s): kept value #%d was decoded from a spoiled input and cannot be iterated to the end, yet forcing it now succeeds (%s)", stepNo, after, i, wm.Render(got))
+			}
+			continue
+		}
 		if err != nil {
 			return ev.Errf("pool/invariant/force-error", "after step %d (%s): forcing kept value #%d failed: %v (model %s)", stepNo, after, i, err, wm.Render(k.model))
 		}
@@ -183,23 +128,37 @@ func (m *machine) invariant(after string, stepNo int) error {
 			return ev.Errf("pool/invariant/kept-value-changed", "after step %d (%s): kept value #%d now forces to %s, it was decoded from %s", stepNo, after, i, wm.Render(got), wm.Render(k.model))
 		}
 	}
+	return m.heldIntact(fmt.Sprintf("after step %d (%s)", stepNo, after))
+}
+
+// heldIntact: results returned by earlier steps are what they were.
+func (m *machine) heldIntact(when string) error {
+	for _, h := range m.held {
+		if !wm.Equal(h.got, h.model) {
+			return ev.Errf("pool/held-result-changed", "%s: the result step %d returned was right then and now reads %s, want %s", when, h.step, wm.Render(h.got), wm.Render(h.model))
+		}
+	}
 	return nil
 }
 
 func (m *machine) step(no int, s Step) error {
+	var val wm.W
+	if s.W != nil {
+		val = s.value()
+	}
 	switch s.Act {
 	case "encode":
 		var b bytes.Buffer
-		if err := binary.Default.Encode(bridge.ToWire(*s.W), &b); err != nil {
+		if err := binary.Default.Encode(bridge.ToWire(val), &b); err != nil {
 			return ev.Errf("pool/encode/error", "step %d: Encode failed: %v", no, err)
 		}
-		if want := refcodec.Encode(*s.W); !bytes.Equal(b.Bytes(), want) {
-			return ev.Errf("pool/encode/bytes", "step %d: Encode(%s) differs from the spec bytes at offset %d", no, wm.Render(*s.W), firstDiff(b.Bytes(), want))
+		if want := refcodec.Encode(val); !bytes.Equal(b.Bytes(), want) {
+			return ev.Errf("pool/encode/bytes", "step %d: Encode(%s) differs from the spec bytes at offset %d", no, wm.Render(val), firstDiff(b.Bytes(), want))
 		}
 	case "enc-env":
 		var b bytes.Buffer
-		e := refcodec.Envelope{Name: []byte("m"), Type: 1, SeqID: int32(no), Body: *s.W}
-		if err := binary.Default.EncodeEnveloped(wire.Envelope{Name: "m", Type: wire.Call, SeqID: int32(no), Value: bridge.ToWire(*s.W)}, &b); err != nil {
+		e := refcodec.Envelope{Name: []byte("m"), Type: 1, SeqID: int32(no), Body: val}
+		if err := binary.Default.EncodeEnveloped(wire.Envelope{Name: "m", Type: wire.Call, SeqID: int32(no), Value: bridge.ToWire(val)}, &b); err != nil {
 			return ev.Errf("pool/enc-env/error", "step %d: EncodeEnveloped failed: %v", no, err)
 		}
 		if want := refcodec.EncodeStrict(e); !bytes.Equal(b.Bytes(), want) {
@@ -208,54 +167,77 @@ func (m *machine) step(no int, s Step) error {
 	case "stream-write":
 		var b bytes.Buffer
 		sw := binary.Default.Writer(&b)
-		err := bridge.StreamWrite(sw, *s.W)
+		err := bridge.StreamWrite(sw, val)
 		sw.Close()
 		if err != nil {
 			return ev.Errf("pool/stream-write/error", "step %d: stream writer failed: %v", no, err)
 		}
-		if want := refcodec.Encode(*s.W); !bytes.Equal(b.Bytes(), want) {
-			return ev.Errf("pool/stream-write/bytes", "step %d: stream writer output for %s differs from the spec bytes at offset %d", no, wm.Render(*s.W), firstDiff(b.Bytes(), want))
+		if want := refcodec.Encode(val); !bytes.Equal(b.Bytes(), want) {
+			return ev.Errf("pool/stream-write/bytes", "step %d: stream writer output for %s differs from the spec bytes at offset %d", no, wm.Render(val), firstDiff(b.Bytes(), want))
 		}
 	case "stream-read":
-		sr := binary.Default.Reader(chunkio.New(refcodec.Encode(*s.W), s.Plan))
-		got, err := bridge.StreamRead(sr, s.W.K)
+		sr := binary.Default.Reader(chunkio.New(refcodec.Encode(val), s.Plan))
+		got, err := bridge.StreamRead(sr, val.K)
 		sr.Close()
 		if err != nil {
 			return ev.Errf("pool/stream-read/error", "step %d: stream reader failed on a valid encoding (%s): %v", no, s.Plan.Class(), err)
 		}
-		if !wm.Equal(got, *s.W) {
-			return ev.Errf("pool/stream-read/value", "step %d: stream reader yields %s, want %s", no, wm.Render(got), wm.Render(*s.W))
+		if !wm.Equal(got, val) {
+			return ev.Errf("pool/stream-read/value", "step %d: stream reader yields %s, want %s", no, wm.Render(got), wm.Render(val))
 		}
+		m.hold(no, s.Big != nil, got, val)
 	case "stream-skip":
-		sr := binary.Default.Reader(chunkio.New(refcodec.Encode(*s.W), s.Plan))
+		sr := binary.Default.Reader(chunkio.New(refcodec.Encode(val), s.Plan))
 		got, err := streamReadSkipping(sr, s.Skip)
 		sr.Close()
 		if err != nil {
 			return ev.Errf("pool/stream-skip/error", "step %d: stream reader failed while reading/skipping a valid encoding (%s): %v", no, s.Plan.Class(), err)
 		}
-		if want := skipModel(*s.W, s.Skip); !wm.Equal(got, want) {
+		if want := skipModel(val, s.Skip); !wm.Equal(got, want) {
 			return ev.Errf("pool/stream-skip/value", "step %d: stream reader (%s) yields %s, want %s", no, s.Plan.Class(), wm.Render(got), wm.Render(want))
 		}
 	case "decode-force":
-		v, err := binary.Default.Decode(bytes.NewReader(refcodec.Encode(*s.W)), wire.Type(s.W.K))
+		v, err := binary.Default.Decode(bytes.NewReader(refcodec.Encode(val)), wire.Type(val.K))
 		if err != nil {
 			return ev.Errf("pool/decode/error", "step %d: Decode failed on a valid encoding: %v", no, err)
 		}
-		got, err := bridge.FromWire(v)
+		got, err := forceAll(v)
 		if err != nil {
 			return ev.Errf("pool/decode/force-error", "step %d: forcing failed: %v", no, err)
 		}
-		if !wm.Equal(got, *s.W) {
-			return ev.Errf("pool/decode/value", "step %d: Decode yields %s, want %s", no, wm.Render(got), wm.Render(*s.W))
+		if !wm.Equal(got, val) {
+			return ev.Errf("pool/decode/value", "step %d: Decode yields %s, want %s", no, wm.Render(got), wm.Render(val))
+		}
+		m.hold(no, s.Big != nil, got, val)
+	case "decode-bad":
+		enc, ok, perr := poisonEncoding(val, s.Bad)
+		if perr != nil || !ok {
+			return ev.Errf("harness/pool-poison", "step %d: cannot spoil %s: ok=%v err=%v", no, wm.Render(val), ok, perr)
+		}
+		v, err := binary.Default.Decode(bytes.NewReader(enc), wire.Type(val.K))
+		if err != nil {
+			return ev.Errf("harness/pool-poison", "step %d: Decode already rejects the spoiled input (%v): the bool byte is not beneath a container", no, err)
+		}
+		switch s.Mode {
+		case "evaluate":
+			if err := wire.EvaluateValue(v); err == nil {
+				return ev.Errf("pool/decode-bad/error-missed", "step %d: EvaluateValue succeeds on an input the reference decoder rejects (%s with a bool byte %#x)", no, wm.Render(val), s.Bad.Byte)
+			}
+		case "iterate":
+			if got, err := forceAll(v); err == nil {
+				return ev.Errf("pool/decode-bad/error-missed", "step %d: iterating every container succeeds on an input the reference decoder rejects (%s with a bool byte %#x): got %s", no, wm.Render(val), s.Bad.Byte, wm.Render(got))
+			}
+		default:
+			m.kept = append(m.kept, &kept{v: v, model: val, open: true, bad: true})
 		}
 	case "decode-keep":
 		var v wire.Value
 		var err error
 		switch s.Env {
 		case "":
-			v, err = binary.Default.Decode(bytes.NewReader(refcodec.Encode(*s.W)), wire.Type(s.W.K))
+			v, err = binary.Default.Decode(bytes.NewReader(refcodec.Encode(val)), wire.Type(val.K))
 		default:
-			e := refcodec.Envelope{Name: []byte("kept"), Type: 2, SeqID: int32(no), Body: *s.W}
+			e := refcodec.Envelope{Name: []byte("kept"), Type: 2, SeqID: int32(no), Body: val}
 			in := refcodec.EncodeStrict(e)
 			if s.Env == refcodec.FrameLegacy {
 				in = refcodec.EncodeLegacy(e)
@@ -270,21 +252,53 @@ func (m *machine) step(no int, s Step) error {
 		if err != nil {
 			return ev.Errf("pool/decode-keep/error", "step %d: decoding a valid encoding failed: %v", no, err)
 		}
-		m.kept = append(m.kept, &kept{v: v, model: *s.W, open: true})
+		m.kept = append(m.kept, &kept{v: v, model: val, open: true})
 	case "force":
 		k := m.kept[s.Idx]
-		got, err := walk(k.v, true, false, s.Eph)
+		got, err := (&walker{closeE: s.Eph, budget: -1}).walk(k.v, true)
+		if k.bad {
+			if err == nil {
+				return ev.Errf("pool/force/error-missed", "step %d: kept value #%d (spoiled input) forces without an error to %s", no, s.Idx, wm.Render(got))
+			}
+			break
+		}
 		if err != nil {
 			return ev.Errf("pool/force/error", "step %d: forcing kept value #%d failed: %v", no, s.Idx, err)
 		}
 		if !wm.Equal(got, k.model) {
 			return ev.Errf("pool/force/value", "step %d: kept value #%d forces to %s, it was decoded from %s", no, s.Idx, wm.Render(got), wm.Render(k.model))
 		}
+	case "partial":
+		// the consumer gives up after s.Stop elements: ForEach must hand its error back, and
+		// the containers are as usable (or, with Close, as finished) as after a full iteration
+		k := m.kept[s.Idx]
+		got, err := (&walker{closeP: s.Close, closeE: s.Eph, budget: s.Stop}).walk(k.v, true)
+		if s.Close {
+			k.open = false
+			k.v = wire.Value{}
+		}
+		switch {
+		case k.bad && err == nil:
+			return ev.Errf("pool/partial/error-missed", "step %d: kept value #%d (spoiled input) was iterated to the end without an error: %s", no, s.Idx, wm.Render(got))
+		case k.bad:
+		case err == nil:
+			if !wm.Equal(got, k.model) { // fewer than Stop elements: a full iteration
+				return ev.Errf("pool/partial/value", "step %d: kept value #%d forces to %s, it was decoded from %s", no, s.Idx, wm.Render(got), wm.Render(k.model))
+			}
+		case !errors.Is(err, errStop):
+			return ev.Errf("pool/partial/error", "step %d: iterating kept value #%d until the callback gives up after %d elements fails with another error: %v", no, s.Idx, s.Stop, err)
+		}
 	case "close":
 		k := m.kept[s.Idx]
-		got, err := walk(k.v, true, true, true) // ForEach then Close, as documented
+		got, err := forceAll(k.v) // ForEach then Close, as documented
 		k.open = false
 		k.v = wire.Value{}
+		if k.bad {
+			if err == nil {
+				return ev.Errf("pool/close/error-missed", "step %d: kept value #%d (spoiled input) was iterated to the end without an error: %s", no, s.Idx, wm.Render(got))
+			}
+			break
+		}
 		if err != nil {
 			return ev.Errf("pool/close/error", "step %d: last iteration of kept value #%d failed: %v", no, s.Idx, err)
 		}
@@ -296,6 +310,12 @@ func (m *machine) step(no int, s Step) error {
 		err := wire.EvaluateValue(k.v) // iterates and closes everything
 		k.open = false
 		k.v = wire.Value{}
+		if k.bad {
+			if err == nil {
+				return ev.Errf("pool/evaluate/error-missed", "step %d: EvaluateValue of kept value #%d (spoiled input) reports no error", no, s.Idx)
+			}
+			break
+		}
 		if err != nil {
 			return ev.Errf("pool/evaluate/error", "step %d: EvaluateValue of kept value #%d failed: %v", no, s.Idx, err)
 		}
@@ -318,14 +338,14 @@ func checkPool(c PoolCase) error {
 	drainPools()
 	m := &machine{}
 	for i, s := range c.Steps {
-		if (s.Act == "force" || s.Act == "close" || s.Act == "evaluate" || s.Act == "drop") && (s.Idx < 0 || s.Idx >= len(m.kept) || !m.kept[s.Idx].open) {
+		if (s.Act == "force" || s.Act == "partial" || s.Act == "close" || s.Act == "evaluate" || s.Act == "drop") && (s.Idx < 0 || s.Idx >= len(m.kept) || !m.kept[s.Idx].open) {
 			return ev.Errf("harness/pool-script", "step %d (%s) refers to kept value #%d which is not open: illegal history", i, s.Act, s.Idx)
 		}
 		if err := m.step(i, s); err != nil {
 			return err
 		}
 	}
-	return nil
+	return m.heldIntact("at the end of the script")
 }
 
 const maxOpenKept = 6
@@ -338,13 +358,25 @@ func TestPoolStateMachine(t *testing.T) {
 		record := func(failed bool) {
 			kinds := map[string]bool{}
 			released := false
+			nBig, nBad := 0, 0
 			for _, s := range script {
 				kinds[s.Act] = true
 				if s.Act == "close" || s.Act == "evaluate" {
 					released = true
 				}
+				if s.Big != nil {
+					nBig++
+				}
+				if s.Act == "decode-bad" {
+					nBad++
+					kinds["decode-bad:"+s.Mode] = true
+				}
+				if s.Act == "partial" && s.Close {
+					kinds["partial:close"] = true
+				}
 			}
-			cls := []string{"unit:pool", fmt.Sprintf("steps:%s", stepBucket(len(script))), fmt.Sprintf("released-a-container:%v", released)}
+			cls := []string{"unit:pool", fmt.Sprintf("steps:%s", stepBucket(len(script))), fmt.Sprintf("released-a-container:%v", released),
+				fmt.Sprintf("big-binaries:%d", nBig), fmt.Sprintf("bad-inputs:%s", countBucket(nBad))}
 			for k := range kinds {
 				cls = append(cls, "act:"+k)
 			}
@@ -358,7 +390,7 @@ func TestPoolStateMachine(t *testing.T) {
 					for _, s := range script {
 						a := s.Act
 						if s.W != nil {
-							a += "(" + clipStr(wm.Render(*s.W), 60) + ")"
+							a += "(" + clipStr(wm.Render(*s.W), 60) + s.Big.String() + ")"
 						} else if s.Act != "gc" {
 							a += fmt.Sprintf("(#%d)", s.Idx)
 						}
@@ -386,6 +418,27 @@ func TestPoolStateMachine(t *testing.T) {
 			k := rapid.SampledFrom([]wm.Kind{wm.KList, wm.KSet, wm.KMap, wm.KStruct, wm.KStruct}).Draw(t, "root")
 			return val(t, k)
 		}
+		// big binaries: one script in eight may carry up to three of them (memory, time)
+		bigBudget, bigBase, nthBig := 0, byte(0), 0
+		if rare(t, "big_script", 3) {
+			bigBudget, bigBase = maxBigPerCase, rapid.Byte().Draw(t, "big_fill")
+		}
+		big := func(t *rapid.T) *Big {
+			if bigBudget <= 0 || rapid.IntRange(0, 1).Draw(t, "big") != 0 {
+				return nil
+			}
+			b := genBig(t, "v", bigBase, nthBig, bigBudget)
+			nthBig++
+			bigBudget -= b.weight()
+			return b
+		}
+		planFor := func(t *rapid.T, b *Big) chunkio.Plan {
+			p := chunkio.GenPlan(t, "plan")
+			if b != nil {
+				p = bigPlan(t, p, "plan")
+			}
+			return p
+		}
 		pick := func(t *rapid.T) int {
 			is := m.openIdx()
 			if len(is) == 0 {
@@ -402,12 +455,23 @@ func TestPoolStateMachine(t *testing.T) {
 				do(t, Step{Act: "stream-write", W: val(t, wm.GenRootKind().Draw(t, "root"))})
 			},
 			"stream-read": func(t *rapid.T) {
-				do(t, Step{Act: "stream-read", W: val(t, wm.GenRootKind().Draw(t, "root")), Plan: chunkio.GenPlan(t, "plan")})
+				b := big(t)
+				do(t, Step{Act: "stream-read", W: val(t, wm.GenRootKind().Draw(t, "root")), Big: b, Plan: planFor(t, b)})
 			},
 			"stream-skip": func(t *rapid.T) {
 				do(t, Step{Act: "stream-skip", W: val(t, wm.KStruct), Plan: chunkio.GenPlan(t, "plan"), Skip: rapid.Uint64().Draw(t, "skip")})
 			},
-			"decode-force": func(t *rapid.T) { do(t, Step{Act: "decode-force", W: lazyVal(t)}) },
+			"decode-force": func(t *rapid.T) { do(t, Step{Act: "decode-force", W: lazyVal(t), Big: big(t)}) },
+			"decode-bad": func(t *rapid.T) {
+				mode := rapid.SampledFrom([]string{"evaluate", "iterate", "keep"}).Draw(t, "mode")
+				if mode == "keep" && len(m.openIdx()) >= maxOpenKept {
+					mode = "iterate"
+				}
+				do(t, Step{Act: "decode-bad", W: genPoisonable(t, false, "w"), Bad: genPoison(t, "w"), Mode: mode})
+			},
+			"partial": func(t *rapid.T) {
+				do(t, Step{Act: "partial", Idx: pick(t), Stop: rapid.IntRange(0, 5).Draw(t, "stop"), Eph: rapid.Bool().Draw(t, "close_ephemeral"), Close: rapid.IntRange(0, 2).Draw(t, "close") == 0})
+			},
 			"decode-keep": func(t *rapid.T) {
 				if len(m.openIdx()) >= maxOpenKept {
 					t.Skip("enough kept")
@@ -417,7 +481,7 @@ func TestPoolStateMachine(t *testing.T) {
 					do(t, Step{Act: "decode-keep", W: val(t, wm.KStruct), Env: env})
 					return
 				}
-				do(t, Step{Act: "decode-keep", W: lazyVal(t)})
+				do(t, Step{Act: "decode-keep", W: lazyVal(t), Big: big(t)})
 			},
 			"decode-keep2": func(t *rapid.T) { // twice as likely: kept values are the point
 				if len(m.openIdx()) >= maxOpenKept {
@@ -434,6 +498,10 @@ func TestPoolStateMachine(t *testing.T) {
 			"drop":     func(t *rapid.T) { do(t, Step{Act: "drop", Idx: pick(t)}) },
 			"gc":       func(t *rapid.T) { do(t, Step{Act: "gc", N: rapid.IntRange(1, 2).Draw(t, "n")}) },
 		})
+		if err := m.heldIntact("at the end of the script"); err != nil {
+			record(true)
+			ev.Report(t, "pool", PoolCase{Steps: script}, err)
+		}
 		record(false)
 	})
 }
